@@ -1,6 +1,6 @@
 (* C05  Pattern-matching (Aho-Corasick) fields hit exactly on keyword substrings.  Statements only.
    The third-party automaton (anknown/ahocorasick + darts) is not modelled: the holder model
-   (Model/Index.v: get_entries on HAc) selects by the Coq function `substring`, i.e. the automaton is
+   (Model/Index.v: get_entries on HAc) selects by the Coq function `kw_found` (`substring` on valid UTF-8), i.e. the automaton is
    replaced by its specification; that the real automaton meets it is what the correspondence run
    validates on adversarial keyword sets on every run (one document per keyword). *)
 From Coq Require Import List NArith ZArith Bool.
@@ -16,8 +16,21 @@ Proof. exact substring_spec. Qed.
 Theorem C05_holder_selects_by_substring : forall fd fid vals v t,
   vals <> [] -> ac_query_text [32%N] v = POk t -> t <> [] ->
   exists ls, get_entries fd fid (HAc vals) v = POk ls /\
-    forall l, In l ls <-> exists k, In (k, l) vals /\ substring k t = true /\ l <> [].
+    forall l, In l ls <-> exists k, In (k, l) vals /\ kw_found k t = true /\ l <> [].
 Proof. exact ac_get_entries_spec. Qed.
+
+(* `kw_found` (Model/Index.v) is what automaton + keyword table find.  On strings that are valid UTF-8 -- the
+   domain C05 is claimed for -- it is the substring rule.  Go strings that are not valid UTF-8 (items
+   1114112 + byte in a model text) are read as the code does: []rune turns each offending byte into U+FFFD, and
+   a keyword that holds one is never found (its table key is not the spelling the automaton reports). *)
+Theorem C05_found_is_substring_on_valid_utf8 : forall k t,
+  valid_text k = true -> valid_text t = true -> kw_found k t = substring k t.
+Proof. exact kw_found_valid. Qed.
+Theorem C05_found_in_general : forall k t,
+  kw_found k t = true <-> valid_text k = true /\ exists pre post, runes t = pre ++ k ++ post.
+Proof. exact kw_found_spec. Qed.
+Theorem C05_invalid_keyword_never_found : forall k t, valid_text k = false -> kw_found k t = false.
+Proof. exact kw_found_invalid. Qed.
 
 (* the query text of several assigned strings is their join with one space *)
 Theorem C05_texts_joined_by_one_space : forall a b rest,
@@ -58,7 +71,7 @@ Proof. exact IndexCorrectHolders.index_correct_holders. Qed.
 Theorem C05_pattern_hit_rule : forall p v e,
   IndexCorrectHolders.ehit CAc p v e = true <->
   exists ks t, ac_parse_dict (e_val e) = POk ks /\ ac_query_text [32%N] v = POk t /\ t <> [] /\
-               exists w, In w ks /\ substring w t = true.
+               exists w, In w ks /\ kw_found w t = true.
 Proof. exact IndexCorrectHolders.ehit_ac_iff. Qed.
 
 (* AGAINST THE SPECIFICATION (Model/Spec.v) for builders with any mix of containers (Proofs/SpecBridgeHolders.v): the
@@ -93,6 +106,8 @@ Example C05_end_to_end_nonvacuous :
 Proof. split; [exact NonVacuous.holders_hypotheses_met_kgroups | split; [exact NonVacuous.holders_hypotheses_met_compact | exact NonVacuous.ex2_ranges_inside_int64]]. Qed.
 
 Example C05_nonvacuous :
+  kw_found [98; 99]%N [97; 98; 99; 100]%N = true /\ kw_found [1114367]%N [1114367]%N = false /\
+  kw_found [65533]%N [97; 1114367]%N = true /\
   substring [98; 99]%N [97; 98; 99; 100]%N = true /\ substring [98; 100]%N [97; 98; 99; 100]%N = false /\
   ac_query_text [32%N] (VSlice TSstring false [VStr [97]%N; VStr [98]%N]) = POk [97; 32; 98]%N.
 Proof. vm_compute. repeat split. Qed.
@@ -110,6 +125,9 @@ Proof. exact SpecBridgeHolders.BridgeWitnessH.sat_hits_instance. Qed.
 
 Print Assumptions C05_substring_means_contiguous_occurrence.
 Print Assumptions C05_holder_selects_by_substring.
+Print Assumptions C05_found_is_substring_on_valid_utf8.
+Print Assumptions C05_found_in_general.
+Print Assumptions C05_invalid_keyword_never_found.
 Print Assumptions C05_texts_joined_by_one_space.
 Print Assumptions C05_any_container_index_exact.
 Print Assumptions C05_pattern_hit_rule.
